@@ -51,48 +51,52 @@ type Config struct {
 }
 
 type Result struct {
-	Steps      int
-	Contended  int // steps at which >= 2 tasks were schedulable
-	Tasks      int
-	Sig        string // signature of the schedule (sequence of picked task ids)
-	Policy     string
-	Exited     bool
-	ExitCode   int
-	Panic      string // non-empty: a task panicked (value + top frames)
-	Deadlock   bool
-	StepCap    bool
-	Live       int
-	Blocked    []string // description of live tasks when the run stopped abnormally
-	SimTimeUS  int64
-	Probes     map[string]int
-	TraceTail  []string
-	MaxParked  int
-	YieldCoins int
+	Steps     int
+	Contended int // steps at which >= 2 tasks were schedulable
+	Tasks     int
+	Sig       string // signature of the schedule (sequence of picked task ids)
+	Policy    string
+	Exited    bool
+	ExitCode  int
+	Panic     string // non-empty: a task panicked (value + top frames)
+	Deadlock  bool
+	// LiveAtReturn: tasks still alive when the root task (the simulated main) returned and
+	// the simulated process therefore ended
+	LiveAtReturn int
+	StepCap      bool
+	Live         int
+	Blocked      []string // description of live tasks when the run stopped abnormally
+	SimTimeUS    int64
+	Probes       map[string]int
+	TraceTail    []string
+	MaxParked    int
+	YieldCoins   int
 }
 
 type Sim struct {
-	mu        sync.Mutex
-	byGid     map[uint64]*Task
-	parked    map[int]*Task
-	waiters   map[any][]*Task
-	sleepers  map[int]*Task
-	all       map[int]*Task
-	live      int
-	nextID    int
-	cfg       Config
-	tape      *Tape
-	steps     int
-	exited    bool
-	exitCode  int
-	panicMsg  string
-	last      int
-	clockUS   int64
-	probes    map[string]int
-	sigh      uint64
-	tail      []string
-	contended int
-	maxParked int
-	coins     int
+	mu           sync.Mutex
+	byGid        map[uint64]*Task
+	parked       map[int]*Task
+	waiters      map[any][]*Task
+	sleepers     map[int]*Task
+	all          map[int]*Task
+	live         int
+	nextID       int
+	cfg          Config
+	tape         *Tape
+	steps        int
+	exited       bool
+	mainReturned bool
+	exitCode     int
+	panicMsg     string
+	last         int
+	clockUS      int64
+	probes       map[string]int
+	sigh         uint64
+	tail         []string
+	contended    int
+	maxParked    int
+	coins        int
 	// PCT
 	changeAt map[int]bool
 	lowPrio  int
@@ -217,6 +221,11 @@ func Exit(t *Task) {
 	delete(s.byGid, gid())
 	delete(s.all, t.id)
 	s.live--
+	if t.id == 0 && r == nil {
+		// the root task is the simulated main: when it returns the process ends, whatever
+		// the other goroutines were about to do
+		s.mainReturned = true
+	}
 	s.mu.Unlock()
 }
 
@@ -489,6 +498,11 @@ func Run(cfg Config, root func()) Result {
 			break
 		}
 		if s.live == 0 {
+			s.mu.Unlock()
+			break
+		}
+		if s.mainReturned {
+			res.LiveAtReturn = s.live
 			s.mu.Unlock()
 			break
 		}
